@@ -201,7 +201,7 @@ def damage_parity_block(arr, level, pos, rng, shape):
     open(f, 'wb').write(data[:pos * bs] + nb + data[(pos + 1) * bs:])
 
 
-DATA_KINDS = ['wipe', 'rmfiles', 'truncate', 'flip', 'mixed', 'rmlinks', 'grow']
+DATA_KINDS = ['wipe', 'rmfiles', 'truncate', 'flip', 'mixed', 'rmlinks', 'grow', 'objects']
 PAR_KINDS = ['delete', 'garbage', 'truncate', 'flipblocks', 'zero']
 
 
@@ -238,6 +238,21 @@ def damage_data_disk(arr, d, kind, rng):
         if kind == 'rmlinks':
             if st.st_nlink > 1 and rng.random() < 0.7:
                 os.unlink(p); done.append('rm-one-hardlink-name ' + rel)
+            continue
+        if kind == 'objects':
+            # the entries checked after the stripes (state_check: empty files, hard links): an empty file that is no longer empty,
+            # a hard link name that became an independent copy (same bytes and time-stamp, another inode)
+            if st.st_size == 0 and st.st_nlink == 1 and rng.random() < 0.9:
+                rewrite_keep_stamp(p, b'junk!') if rng.random() < 0.5 else open(p, 'wb').write(b'junk!')
+                done.append('fill-empty-file ' + rel)
+            elif st.st_nlink > 1 and st.st_ino in seen_ino:
+                data = open(p, 'rb').read()
+                os.unlink(p)
+                with open(p, 'wb') as fh:
+                    fh.write(data)
+                os.utime(p, ns=(st.st_mtime_ns, st.st_mtime_ns))
+                done.append('unlink-hardlink-into-copy ' + rel)
+            seen_ino.add(st.st_ino)
             continue
         if k == 'rmfiles' and rng.random() < 0.7:
             os.unlink(p); done.append('rm ' + rel)
